@@ -315,8 +315,90 @@ def strip_size(p):
     return p
 
 
+def from_schema(sc):
+    """structural spelling of a concrete schema"""
+    k = sc[0]
+    if k == "TS":
+        return ("ts", ("c", sc[1]))
+    if k == "TSS":
+        return ("tss", ("c", sc[1]))
+    if k == "TSD":
+        return ("tsd", ("c", sc[1]), from_schema(sc[2]))
+    if k == "TSL":
+        return ("tsl", from_schema(sc[1]), sc[2])
+    return ("tsb", tuple((n, from_schema(c)) for n, c in sc[1]))
+
+
+def shape_key(params):
+    """the parameter list with list sizes dropped, concrete parts spelled structurally and variables renamed in order of first
+    occurrence: equal keys = the same overload up to TSL sizes and variable names"""
+    names = {}
+
+    def nm(kind, n):
+        return names.setdefault((kind, n), f"{kind}{len([1 for k in names if k[0] == kind])}")
+
+    def go(p):
+        k = p[0]
+        if k == "c":
+            return go(from_schema(parse_schema(p[1])))
+        if k == "var":
+            return ("var", nm("ts", p[1]))
+        if k in ("ts", "tss"):
+            return (k, p[1] if p[1][0] == "c" else ("v", nm("sc", p[1][1])))
+        if k == "tsd":
+            return ("tsd", p[1] if p[1][0] == "c" else ("v", nm("sc", p[1][1])), go(p[2]))
+        if k in ("tsl", "tslv"):
+            return ("tslX", go(p[1]))
+        if k == "tsb":
+            return ("tsb", tuple((n, go(c)) for n, c in p[1]))
+        if k == "ref":
+            return ("ref", go(p[1]))
+        return p
+    return tuple(go(tup(x)) for x in params)
+
+
+def bundle_of_two_vars(A):
+    """does some parameter of candidate A contain a (field-wise) bundle pattern with >= 2 whole-time-series variables below it?
+    (known finding F15: the halved cost of nested variables adds up, so such a bundle ranks worse than one bare variable)"""
+    def ts_vars(p):
+        return [v for v in pat_vars(p) if v[0] == "ts"]
+
+    def go(p):
+        k = p[0]
+        if k == "tsb":
+            if sum(len(ts_vars(c)) for _, c in p[1]) >= 2:
+                return True
+            return any(go(c) for _, c in p[1])
+        if k == "tsd":
+            return go(p[2])
+        if k in ("tsl", "tslv", "ref"):
+            return go(p[1])
+        return False
+    return any(go(tup(x)) for x in A["params"])
+
+
 def differ_only_in_size(A, B):
-    return len(A["params"]) == len(B["params"]) and all(strip_size(tup(x)) == strip_size(tup(y)) for x, y in zip(A["params"], B["params"]))
+    return len(A["params"]) == len(B["params"]) and shape_key(A["params"]) == shape_key(B["params"])
+
+
+def canon(p):
+    """one spelling per type: a sub-pattern without variables is written as the concrete schema (the library ranks
+    concrete(TS[int]) and ts(concrete(int)) differently although they denote the same type; two spellings of one type are
+    not two overloads)"""
+    k = p[0]
+    if k in ("c", "var", "signal"):
+        return p
+    if k == "ref":
+        return ("ref", canon(p[1]))
+    if not pat_vars(p) and not has_special(p):
+        return ("c", sstr(subst(p, {})))
+    if k == "tsd":
+        return ("tsd", p[1], canon(p[2]))
+    if k in ("tsl", "tslv"):
+        return (k, canon(p[1]), p[2])
+    if k == "tsb":
+        return ("tsb", tuple((n, canon(c)) for n, c in p[1]))
+    return p
 
 
 def cand_instance_of(A, B):
@@ -342,9 +424,9 @@ def case(draw, tier):
             if r == 0:
                 params.append(("signal",))
             elif r == 1:
-                params.append(("ref", generalise(draw, s, vars_ts, vars_sc, vars_sz)))
+                params.append(("ref", canon(generalise(draw, s, vars_ts, vars_sc, vars_sz))))
             else:
-                params.append(generalise(draw, s, vars_ts, vars_sc, vars_sz))
+                params.append(canon(generalise(draw, s, vars_ts, vars_sc, vars_sz)))
         pv = set()
         for p in params:
             pat_vars(p, pv)
@@ -409,7 +491,8 @@ def check(case, ctx) -> Result:
             if o["err"] == "ambiguous" and len(matches) == 2 and not any(special):
                 a, b2 = [by_label[m] for m in sorted(matches)]
                 if (cand_instance_of(a, b2) and not cand_instance_of(b2, a)) or (cand_instance_of(b2, a) and not cand_instance_of(a, b2)):
-                    res.violations.append(Viol("ambiguous_between_comparable", f"call {[sstr(s) for s in call]}: ambiguous between {a['label']} {a['params']} and {b2['label']} {b2['params']} although one is a proper instance of the other", dict(feats, differ_only_in_tsl_size=differ_only_in_size(a, b2))))
+                    res.violations.append(Viol("ambiguous_between_comparable", f"call {[sstr(s) for s in call]}: ambiguous between {a['label']} {a['params']} and {b2['label']} {b2['params']} although one is a proper instance of the other", dict(feats, differ_only_in_tsl_size=differ_only_in_size(a, b2),
+                                                                                                                         instance_has_bundle_of_vars=bundle_of_two_vars(a if cand_instance_of(a, b2) else b2))))
             continue
         win = by_label[o["win"]]
         if o["win"] not in matches and not special[fam.index(win)]:
@@ -437,7 +520,7 @@ def check(case, ctx) -> Result:
                 continue
             A = by_label[m]
             if cand_instance_of(A, win) and not cand_instance_of(win, A):
-                res.violations.append(Viol("less_specific_won", f"call {[sstr(s) for s in call]}: {win['label']} {win['params']} (rank {ranks[fam.index(win)]}) won although {A['label']} {A['params']} (rank {ranks[fam.index(A)]}) also matches and is a proper instance of it", dict(feats, differ_only_in_tsl_size=differ_only_in_size(A, win))))
+                res.violations.append(Viol("less_specific_won", f"call {[sstr(s) for s in call]}: {win['label']} {win['params']} (rank {ranks[fam.index(win)]}) won although {A['label']} {A['params']} (rank {ranks[fam.index(A)]}) also matches and is a proper instance of it", dict(feats, differ_only_in_tsl_size=differ_only_in_size(A, win), instance_has_bundle_of_vars=bundle_of_two_vars(A))))
             if cand_instance_of(A, win) != cand_instance_of(win, A):
                 comparable = True
         if len(fam) >= 3 and len(matches) >= 2 and comparable:
